@@ -1224,6 +1224,7 @@ def _mk_hier():
         o = Obj('Component')
         o.fields['get_parent_object()'] = par
         o.fields['_dsl'] = Obj('dsl', adjacency={})
+        o.fields.update({'is_component()': True, 'is_signal()': False, 'is_interface()': False})
         return o
     T = comp(None)
     A, B = comp(T), comp(T)
@@ -1232,14 +1233,25 @@ def _mk_hier():
     return dict(T=T, A=A, B=B, A1=A1, A2=A2, B1=B1, A11=A11)
 
 
-def _mk_sig(cls, host, depth=0):
+def _mk_sig(cls, host, depth=0, ifc=0):
+    """a signal of component `host`; `ifc` nested Interface objects sit between the signal and the component (a wire /
+    port declared inside an interface: its parent object is the interface, its host component is still `host`);
+    `depth` struct-field / slice levels below the declared signal"""
+    par = host
+    for _ in range(ifc):
+        i = Obj('Interface')
+        i.fields.update({'get_parent_object()': par, 'get_host_component()': host, 'is_component()': False,
+                         'is_signal()': False, 'is_interface()': True})
+        par = i
     o = Obj(cls)
-    o.fields['get_parent_object()'] = host
-    o.fields['get_host_component()'] = host
+    o.fields.update({'get_parent_object()': par, 'get_host_component()': host, 'is_component()': False, 'is_signal()': True,
+                     'is_interface()': False, 'is_top_level_signal()': True})
+    o.fields['get_top_level_signal()'] = o
+    root = o
     for _ in range(depth):      # a struct field / slice of the signal: same class, parent is the signal
         c = Obj(cls)
-        c.fields['get_parent_object()'] = o
-        c.fields['get_host_component()'] = host
+        c.fields.update({'get_parent_object()': o, 'get_host_component()': host, 'is_component()': False, 'is_signal()': True,
+                         'is_interface()': False, 'is_top_level_signal()': False, 'get_top_level_signal()': root})
         o = c
     return o
 
@@ -1271,7 +1283,7 @@ def _nets_expected(rel, ucls, vcls, in_parent):
 def rule_porttable(repo):
     r = RuleResult('R-C09-porttable', "the accept/reject decision of _check_port_in_upblk and _check_port_in_nets equals the "
                                       "port-direction rules [Type 1..9] for every hierarchical relation and port class")
-    anc = class_ancestors(repo, L3, ['InPort', 'OutPort', 'Wire', 'Const', 'Signal'])
+    anc = class_ancestors(repo, L3, ['InPort', 'OutPort', 'Wire', 'Const', 'Signal', 'Interface'])
     anc.update(class_ancestors(repo, COMP, ['Component']))
     # ---- update blocks
     m, f = _func_of(repo, L2, 'ComponentLevel2._check_port_in_upblk')
@@ -1298,23 +1310,24 @@ def rule_porttable(repo):
             wrong = None
             for sh in ('A', 'A1', 'T'):
                 for bh in ('A', 'T', 'A1', 'B', 'A11'):
-                    for depth in (0, 1):
-                        sig = _mk_sig(cls, H[sh], depth)
+                    for depth, ifc in ((0, 0), (1, 0), (0, 1), (1, 1), (0, 2), (2, 2)):
+                        sig = _mk_sig(cls, H[sh], depth, ifc)
                         ev = Abs({objvar: sig, hostvar: H[bh]}, ancestors=anc)
                         out = run_block(ev, body)
                         r.evaluations += 1
-                        want = _upblk_expected(kind, cls, H[bh], H[sh])
+                        want = _upblk_expected(kind, cls, H[bh], H[sh])     # decided by the HOST COMPONENT only
                         if out[0] not in ('fall', 'raise'):
                             raise AnalysisError(f"{fq}: unexpected outcome {out}")
                         got = out[0] == 'fall'
                         if got != want or (not got and out[1] != 'SignalTypeError'):
-                            wrong = wrong or (sh, bh, depth, out, want)
+                            wrong = wrong or (sh, bh, (depth, ifc), out, want)
             cons = f"{kind} of {cls} from an update block"
             seen.add(cons)
             if wrong:
-                sh, bh, depth, out, want = wrong
+                sh, bh, (depth, ifc), out, want = wrong
                 r.bad(m, fq, cons,
-                      f"{kind} of a{' field/slice of a' if depth else ''} {cls} of component {sh} in an update block of {bh} is "
+                      f"{kind} of a{' field/slice of a' if depth else ''} {cls} "
+                      f"{'declared inside ' + ('a nested ' if ifc > 1 else 'an ') + 'Interface ' if ifc else ''}of component {sh} in an update block of {bh} is "
                       f"{'accepted' if out[0] == 'fall' else 'rejected with ' + str(out[1])}; the port rules say it must be "
                       f"{'accepted' if want else 'rejected with SignalTypeError'} (hierarchy: T > A,B; A > A1,A2; A1 > A11)",
                       inner[0].lineno)
@@ -2694,6 +2707,10 @@ MUTANTS = [
     _m('mw-ancestor-membership-inverted', L2, "        if x is not obj and x in write_upblks:", "        if x is not obj and x not in write_upblks:", 'R-C09-mw-cover'),
     _m('mw-map-filtered', L2, "        write_upblks[ wr ].add( blk )", "        if wr.is_top_level_signal(): write_upblks[ wr ].add( blk )", 'R-C09-mw-cover'),
     # --- R-C09-porttable
+    _m('wire-host-is-declaring-object (C09r11)', L2, "        host = obj\n        while not isinstance( host, ComponentLevel2 ):\n          host = host.get_parent_object() # go to the component\n\n        if   isinstance( obj, (InPort, OutPort) ):  pass",
+       "        host = obj.get_top_level_signal().get_parent_object()\n\n        if   isinstance( obj, (InPort, OutPort) ):  pass", 'R-C09-porttable'),
+    _m('write-host-is-direct-parent', L2, "        host = obj\n        while not isinstance( host, ComponentLevel2 ):\n          host = host.get_parent_object() # go to the component\n\n      # A continuous assignment",
+       "        host = obj.get_parent_object()\n\n      # A continuous assignment", 'R-C09-porttable'),
     _m('inport-written-by-own-block', L2, "          if host.get_parent_object() != blk_hostobj:", "          if host != blk_hostobj:", 'R-C09-porttable'),
     _m('wire-read-from-outside', L2, "          if blk_hostobj != host:\n            raise SignalTypeError(\"\"\"[Type 1]", "          if blk_hostobj == host:\n            raise SignalTypeError(\"\"\"[Type 1]", 'R-C09-porttable'),
     _m('child-outport-written-by-parent', L2, "        elif isinstance( obj, OutPort ):\n          if blk_hostobj != host:",
@@ -2780,6 +2797,10 @@ EQUIV = [
     _m('mw-ancestor-conjuncts-swapped', L2, "        if x is not obj and x in write_upblks:", "        if x in write_upblks and x is not obj:"),
     _m('port-valid-conjuncts-swapped', L3, "              valid = isinstance( u, OutPort ) and isinstance( v, InPort )", "              valid = isinstance( v, InPort ) and isinstance( u, OutPort )"),
     _m('port-relation-sides-swapped', L3, "            if   whost == rhost:", "            if   rhost == whost:"),
+    _m('upblk-host-via-host-component', L2, "        host = obj\n        while not isinstance( host, ComponentLevel2 ):\n          host = host.get_parent_object() # go to the component\n\n        if   isinstance( obj, (InPort, OutPort) ):  pass",
+       "        host = obj.get_host_component()\n\n        if   isinstance( obj, (InPort, OutPort) ):  pass"),
+    _m('upblk-host-walk-is-component', L2, "        host = obj\n        while not isinstance( host, ComponentLevel2 ):\n          host = host.get_parent_object() # go to the component\n\n        if   isinstance( obj, (InPort, OutPort) ):  pass",
+       "        host = obj.get_top_level_signal().get_parent_object()\n        while not host.is_component():\n          host = host.get_parent_object()\n\n        if   isinstance( obj, (InPort, OutPort) ):  pass"),
     _m('port-upblk-not-eq', L2, "          if blk_hostobj != host:\n            raise SignalTypeError(\"\"\"[Type 1]", "          if not (blk_hostobj == host):\n            raise SignalTypeError(\"\"\"[Type 1]"),
     _m('optable-loop-var-renamed', L2, "            for x in objs:\n              if not x.is_top_level_signal():\n                raise UpdateFFNonTopLevelSignalError( s, func, nodelist[0].lineno )\n\n              x._dsl.needs_double_buffer = True",
        "            for sig in objs:\n              if not sig.is_top_level_signal():\n                raise UpdateFFNonTopLevelSignalError( s, func, nodelist[0].lineno )\n\n              sig._dsl.needs_double_buffer = True"),
